@@ -114,42 +114,56 @@ Definition block_of (c : cue) (total : N) : option cuesheet :=
 (* ---- well-formedness *)
 Definition is_ascii_ws_free (s : list N) : Prop := Forall (fun c => is_ws c = false /\ c <> 10) s.
 
-Fixpoint consecutive (from : N) (l : list N) : Prop :=
-  match l with [] => True | x :: r => x = from /\ consecutive (from + 1) r end.
-Fixpoint increasing (prev : N) (l : list N) : Prop :=
-  match l with [] => True | x :: r => prev < x /\ increasing x r end.
-
 Definition wf_index (i : cue_index) : Prop := ci_ss i < 60 /\ ci_ff i < 75 /\ ci_samples i <= U64_MAX.
 Definition wf_isrc (s : list N) : Prop :=
   lenN s = 12 /\ forallb is_alpha (firstn 2 s) = true /\ forallb is_alnum (firstn 3 (skipn 2 s)) = true /\
   forallb is_digit (skipn 5 s) = true.
+
+(* index points after the first of a track: later position, next number *)
+Fixpoint index_chain (prev_frames prev_num : N) (l : list cue_index) : Prop :=
+  match l with
+  | [] => True
+  | i :: r => prev_frames < ci_frames i /\ ci_num i = prev_num + 1 /\ index_chain (ci_frames i) (ci_num i) r
+  end.
+
 Definition wf_track (t : cue_track) : Prop :=
   Forall wf_index (ct_indices t) /\
   match ct_indices t with
   | [] => False
-  | i0 :: r => (ci_num i0 = 1 \/ (ci_num i0 = 0 /\ r <> [])) /\
-               consecutive (ci_num i0) (map ci_num (ct_indices t)) /\
+  | i0 :: r => (ci_num i0 = 1 \/ (ci_num i0 = 0 /\ r <> [])) /\     (* INDEX 01 is present *)
+               index_chain (ci_frames i0) (ci_num i0) r /\
                lenN (ct_indices t) <= 100
   end /\
   match ct_isrc t with Some s => wf_isrc s | None => True end.
 
-(* all index positions of the sheet, in text order *)
-Definition all_frames (c : cue) : list N := flat_map (fun t => map ci_frames (ct_indices t)) (cu_tracks c).
+Definition last_frames (t : cue_track) : N :=
+  match rev (ct_indices t) with i :: _ => ci_frames i | [] => 0 end.
+
+(* tracks numbered num, num+1, ...; the first index of the sheet at 00:00:00, every later
+   track starting after the last index of the one before *)
+Fixpoint sheet_ok (num : N) (prev : option N) (ts : list cue_track) : Prop :=
+  match ts with
+  | [] => True
+  | t :: r =>
+    ct_num t = num /\ wf_track t /\
+    match ct_indices t with
+    | [] => False
+    | i0 :: _ => match prev with None => ci_frames i0 = 0 | Some p => p < ci_frames i0 end
+    end /\
+    sheet_ok (num + 1) (Some (last_frames t)) r
+  end.
 
 Definition wf_cue (c : cue) : Prop :=
   cu_tracks c <> [] /\ lenN (cu_tracks c) <= 99 /\
-  consecutive 1 (map ct_num (cu_tracks c)) /\
-  Forall wf_track (cu_tracks c) /\
-  match all_frames c with
-  | f0 :: r => f0 = 0 /\ increasing 0 r
-  | [] => False
-  end /\
+  sheet_ok 1 None (cu_tracks c) /\
   match cu_catalog c with Some d => lenN d = 13 /\ forallb is_digit d = true | None => True end.
+
+(* every index position lies before the end of the stream *)
+Definition before_end (c : cue) (total : N) : Prop :=
+  Forall (fun t => Forall (fun i => ci_samples i < total) (ct_indices t)) (cu_tracks c).
 
 Definition wf_style (st : style) : Prop :=
   st_type st <> [] /\ Forall (fun c => is_ws c = false /\ c <> 10) (st_type st).
 Definition wf_deco (d : deco) : Prop :=
   Forall (fun c => is_ws c = true /\ c <> 10) (d_indent d) /\ Forall (fun c => is_ws c = true /\ c <> 10) (d_trail d).
 
-(* last index position of the sheet, in samples *)
-Definition last_samples (c : cue) : N := 588 * last (all_frames c) 0.
